@@ -458,3 +458,97 @@ func trunc(s string, n int) string {
 	}
 	return s[:n] + "…"
 }
+
+// paramWhere returns "param:<name>" of the first parameter (receiver included) whose type satisfies pred;
+// rules never spell parameter names: they are not part of the behaviour.
+func paramWhere(fn *ssa.Function, pred func(types.Type) bool) string {
+	for _, p := range fn.Params {
+		if pred(p.Type()) {
+			return "param:" + p.Name()
+		}
+	}
+	return "param:?"
+}
+
+func isByteSlice(t types.Type) bool {
+	sl, ok := t.Underlying().(*types.Slice)
+	if !ok {
+		return false
+	}
+	b, ok := sl.Elem().Underlying().(*types.Basic)
+	return ok && b.Kind() == types.Byte
+}
+
+func isFuncType(t types.Type) bool {
+	_, ok := t.Underlying().(*types.Signature)
+	return ok
+}
+
+func isNamed(name string) func(types.Type) bool {
+	return func(t types.Type) bool { return namedOf(t) == name }
+}
+
+// hasField: a struct (or pointer to struct) type with a field of that name, embedded structs included.
+func hasField(field string) func(types.Type) bool {
+	return func(t types.Type) bool {
+		if p, ok := t.Underlying().(*types.Pointer); ok {
+			t = p.Elem()
+		}
+		if _, ok := t.Underlying().(*types.Struct); !ok {
+			return false
+		}
+		obj, _, _ := types.LookupFieldOrMethod(t, true, nil, field)
+		if obj == nil {
+			// unexported fields need the package; search by hand
+			st := t.Underlying().(*types.Struct)
+			for i := 0; i < st.NumFields(); i++ {
+				if st.Field(i).Name() == field {
+					return true
+				}
+			}
+			return false
+		}
+		_, isVar := obj.(*types.Var)
+		return isVar
+	}
+}
+
+// paramFedBy returns "param:<name>" of the parameter of fn that every static caller in the product code feeds
+// with a value whose access path ends in suffix (e.g. ".TrustedIdentities"): the role of a parameter is
+// given by what callers pass, not by its name.
+func (w *World) paramFedBy(fn *ssa.Function, suffix string) string {
+	return w.paramFedByDepth(fn, suffix, 4)
+}
+
+func (w *World) paramFedByDepth(fn *ssa.Function, suffix string, depth int) string {
+	idx := -1
+	n := 0
+	for _, g := range w.Funcs {
+		for _, ci := range allCalls(g) {
+			if staticCallee(ci) != fn {
+				continue
+			}
+			n++
+			args := ci.Common().Args
+			found := -1
+			for i, a := range args {
+				if strings.HasSuffix(desc(a), suffix) {
+					found = i
+				} else if p, ok := a.(*ssa.Parameter); ok && depth > 0 && g != fn {
+					// handed through: the caller's own parameter plays that role
+					if w.paramFedByDepth(g, suffix, depth-1) == "param:"+p.Name() {
+						found = i
+					}
+				}
+			}
+			if found < 0 || (idx >= 0 && idx != found) {
+				return "param:?"
+			}
+			idx = found
+		}
+	}
+	if n == 0 || idx < 0 || idx >= len(fn.Params) {
+		return "param:?"
+	}
+	return "param:" + fn.Params[idx].Name()
+}
